@@ -14,6 +14,7 @@ Harness descriptors (specs/<ID>/property.json -> "kani": [...]):
   features     cargo features to enable (e.g. ["ndarray-bindings"])
   timeout_s    default 600
   fn           function under test (for reports)
+  also_inject  [[module, inject_into], ...] further helper modules to inject (e.g. a constructor living in another source file)
 """
 import concurrent.futures as cf
 import hashlib
@@ -236,7 +237,7 @@ def run_property(pid, descs, tier, repo, work, here, parallel=6):
     for h in hs:
         groups.setdefault(tuple(h.get('features', [])), []).append(h)
     for feats, group in groups.items():
-        copy, err = prepare_copy(repo, os.path.join(work, 'k-' + ('_'.join(feats) or 'default')), [(h['module'], h['inject_into']) for h in group], here)
+        copy, err = prepare_copy(repo, os.path.join(work, 'k-' + ('_'.join(feats) or 'default')), [(h['module'], h['inject_into']) for h in group] + [tuple(x) for h in group for x in h.get('also_inject', [])], here)
         if err:
             for h in group:
                 results.append(dict(harness=h['harness'], status='inconclusive', reason=err, bound=h.get('bound', '')))
